@@ -142,12 +142,85 @@ fn user_diagnostics(s: &Server, mods: &Mods) -> Vec<String> {
   v
 }
 
+// ------------------------------------------------------------------ or-pattern hosts
+
+/// a pattern for `E` (variants A(int), B(int), C) that binds exactly the variables in `vars` (0 or 1)
+fn pat_e(t: &mut Tape, vars: &[String], depth: u32) -> String {
+  match vars.first() {
+    Some(v) => match t.weighted(&[3, 3, if depth > 0 { 4 } else { 0 }]) {
+      0 => format!("A({v})"),
+      1 => format!("B({v})"),
+      _ => {
+        if t.bool(1, 2) { format!("A({v}) | B({v})") } else { format!("B({v}) | A({v})") }
+      }
+    },
+    None => ["A(_)", "B(_)", "C", "_"][t.choose(4)].to_string(),
+  }
+}
+
+/// a pattern for `Pair<E, E>` binding exactly `vars` (each variable in one component), possibly an
+/// or-pattern of two tuple patterns that place the variables differently
+fn pat_pair(t: &mut Tape, vars: &[String], depth: u32) -> String {
+  let one = |t: &mut Tape| -> String {
+    let (mut l, mut r): (Vec<String>, Vec<String>) = (vec![], vec![]);
+    for v in vars {
+      if t.bool(1, 2) && l.is_empty() {
+        l.push(v.clone());
+      } else if r.is_empty() {
+        r.push(v.clone());
+      } else {
+        l.push(v.clone());
+      }
+    }
+    let (a, b) = (pat_e(t, &l, depth), pat_e(t, &r, depth));
+    // or-patterns inside a tuple need no parentheses; a wildcard component keeps the arm refutable
+    format!("({a}, {b})")
+  };
+  if depth > 0 && t.bool(1, 2) {
+    format!("{} | {}", one(t), one(t))
+  } else {
+    one(t)
+  }
+}
+
+/// (unique-name text, queried text): a member with 2-4 match arms over Pair<E, E> using nested
+/// or-patterns; the queried text re-uses x / y in every arm, the unique text numbers them per arm
+fn or_pattern_host(t: &mut Tape) -> (String, String) {
+  let arms = 2 + t.choose(3);
+  let mut texts = [String::new(), String::new()];
+  for (which, text) in texts.iter_mut().enumerate() {
+    let _ = which;
+    text.push_str("import { Pair } from std.tuples;\n\nclass E(A(int), B(int), C) {\n  function mk(): E = E.A(1)\n}\n\nclass Main {\n  function f(p: Pair<E, E>, k: int): int =\n    match p {\n");
+  }
+  for arm in 0..arms {
+    let nvars = t.choose(3);
+    // the two texts must make identical tape choices: generate once with placeholder names
+    let placeholders: Vec<String> = (0..nvars).map(|i| format!("@{i}@")).collect();
+    let pat = pat_pair(t, &placeholders, 1);
+    let body = if nvars == 0 { "k".to_string() } else { format!("{} + k", placeholders.join(" + ")) };
+    let arm_text = format!("      {pat} -> {body},\n");
+    for (which, text) in texts.iter_mut().enumerate() {
+      let mut a = arm_text.clone();
+      for i in 0..nvars {
+        let name = if which == 0 { format!("v{arm}n{i}") } else { ["x", "y"][i].to_string() };
+        a = a.replace(&format!("@{i}@"), &name);
+      }
+      text.push_str(&a);
+    }
+  }
+  for text in texts.iter_mut() {
+    text.push_str("      _ -> 0,\n    }\n\n  function main(): unit = {\n    Process.println(Str.fromInt(Main.f((E.A(3), E.B(4)), 1)));\n    Process.println(Str.fromInt(Main.f((E.C(), E.A(5)), 2)));\n  }\n}\n");
+  }
+  let [u, r] = texts;
+  (u, r)
+}
+
 impl Prop for C15 {
   fn id(&self) -> &'static str {
     "C15"
   }
   fn rule(&self) -> String {
-    "hosts: G1 accepted programs (parameters, let, tuple / struct (`as` and shorthand) / variant / or-patterns, if-let, match arms, lambda parameters, variables captured by nested lambdas) whose local names are unique per member; the queried document is that program or (1 in 2) the same program with every binder renamed after its scope level, so that sibling scopes reuse the same names and nested scopes never shadow; ground truth: occurrence i of the queried document resolves to the binder named by occurrence i of the unique-name version; at up to 16 tape-chosen identifier occurrences (first or last character): go-to-definition must land on a binding occurrence of the right variable, find-references must return all uses plus at least one binding occurrence of it and nothing else; for up to 3 of them rename to a fresh name must yield a document that parses, has the same (no) diagnostics, changes exactly the variable's occurrences in the sequence of lower-case identifiers, runs identically under the reference interpreter, and renaming back must restore the formatted original; non-trivial = the member containing a queried occurrence has >=3 distinct variables, and the document has a lambda or a pattern binder; distinct = hash of the document and the picks".into()
+    "hosts: (1 in 4) a member with 2-4 match arms over Pair<E, E> whose patterns are nested or-patterns binding the same variables in every alternative and in different tuple components (`(A(x) | B(x), _) | (_, B(x))`), the same names re-used in every arm; (3 in 4) G1 accepted programs (parameters, let, tuple / struct (`as` and shorthand) / variant / or-patterns, if-let, match arms, lambda parameters, variables captured by nested lambdas) whose local names are unique per member; the queried document is that program or (1 in 2) the same program with every binder renamed after its scope level, so that sibling scopes reuse the same names and nested scopes never shadow; ground truth: occurrence i of the queried document resolves to the binder named by occurrence i of the unique-name version; at up to 16 tape-chosen identifier occurrences (first or last character): go-to-definition must land on a binding occurrence of the right variable, find-references must return all uses plus at least one binding occurrence of it and nothing else; for up to 3 of them rename to a fresh name must yield a document that parses, has the same (no) diagnostics, changes exactly the variable's occurrences in the sequence of lower-case identifiers, runs identically under the reference interpreter, and renaming back must restore the formatted original; non-trivial = the member containing a queried occurrence has >=3 distinct variables, and the document has a lambda or a pattern binder; distinct = hash of the document and the picks".into()
   }
   fn assumptions(&self) -> Vec<String> {
     vec![
@@ -164,6 +237,12 @@ impl Prop for C15 {
     }
   }
   fn generate(&self, t: &mut Tape, tier: Tier) -> Value {
+    if t.bool(1, 4) {
+      let (u, r) = or_pattern_host(t);
+      let picks: Vec<u32> = (0..16).map(|_| t.raw()).collect();
+      let m = |x: &str| vec![json!({"name": ["M"], "text": x})];
+      return json!({"unique": m(&u), "modules": m(&r), "entry": ["M"], "picks": picks, "reused": true, "features": ["or-pattern-host"]});
+    }
     let mut cfg = super::behav::cfg_for("C15", tier);
     cfg.force_hof = t.bool(1, 3);
     let (mut ir, feats) = gen_program(t, cfg);
